@@ -149,3 +149,63 @@ def jobs_for(pid, tier, seed):
             osx = dict(osx, crits=cr)
             jobs.append((label, text, na, two, osx))
     return jobs
+
+
+# ---------------------------------------------------------------------------
+# Archive traces: the result files shipped under Evaluations/ (older output format)
+def archive_traces():
+    from . import restext
+    out = []
+    for d, na, _two in EVAL:
+        base = os.path.join(common.REPO, 'Evaluations', d)
+        for sub in sorted(os.listdir(base)):
+            if sub == 'instances':
+                continue
+            for f in sorted(glob.glob(os.path.join(base, sub, '*.txt'))):
+                inst = os.path.join(base, 'instances', os.path.basename(f))
+                if not os.path.exists(inst):
+                    continue
+                txt = open(f).read()
+                p = restext.parse_results(txt)
+                cons = ' '.join(p.get('constraints', []))
+                bf = any(k.startswith('optimal_') for k in p['keys']) or bool(p.get('bf_infeasible'))
+                if bf:
+                    pc = sub.endswith('_pc')
+                    crits, stab = [], False
+                else:
+                    pc = 'project closures' in cons
+                    stab = 'stability' in cons
+                    if any(n.startswith('?') for n in p['optimisations']):
+                        continue
+                    crits = [fm.C(n) for n in p['optimisations']]
+                one = lambda k: (p.get(k) or [None])[0] if isinstance(p.get(k), list) else p.get(k)
+                t = {'text': list(open(inst, 'rb').read()), 'na': na, 'twopl': bool(stab), 'pc': pc, 'stab': stab, 'bf': bf,
+                     'crits': crits, 'construct': 'ok', 'exception': '', 'loaded': {}, 'status': p.get('pulp_status', ''),
+                     'matching': p.get('matching', []), 'objvals': [], 'stabline': p.get('stability_correct', ''), 'archive': True,
+                     'stats': {'cost': one('cost'), 'cost_sq': one('cost_sq'), 'degree': p.get('degree'), 'profile': p.get('profile'),
+                               'max_lec_abs_diff': p.get('max_lec_abs_diff'), 'sum_lec_abs_diff': p.get('sum_lec_abs_diff')} if not bf else {},
+                     'bfres': ({'feasible': True, 'size': p.get('optimal_size'), 'cost': one('optimal_maxsizemincost'),
+                                'deg': p.get('optimal_maxsizemindegree'), 'sq': one('optimal_maxsizeminsqcost'),
+                                'gen': p.get('optimal_generousmaxprofile'), 'gremax': p.get('optimal_greedymaxprofile'),
+                                'gre': p.get('optimal_greedyprofile'), 'mx': p.get('optimal_max_lec_abs_diff'),
+                                'sm': p.get('optimal_sum_lec_abs_diff')} if bf and not p.get('bf_infeasible') else {'feasible': False}),
+                     'meta': {'instance': 'Evaluations/%s/%s/%s (archived result file)' % (d, sub, os.path.basename(f)),
+                              'opts': {'pc': pc, 'stab': stab, 'bf': bf, 'crits': [c['c'] for c in crits]}}}
+                out.append(t)
+    return out
+
+
+def run_archive(rep, pid, want_bf):
+    """Validates the archived result files with Trace_Pipe (growth: the
+    specification agrees with the results the authors published)."""
+    traces = [t for t in archive_traces() if t['bf'] == want_bf]
+    if not traces:
+        return
+    verdicts, st = pipedrive.validate(traces, pid, label='Trace_Pipe: archived Evaluations results', chunks=8, workers=2)
+    rep.add_tlc(tlc.stats_of(st))
+    for t, v in zip(traces, verdicts):
+        rep.traces += 1
+        ok = not v['fails']
+        rep.clause('X.archived_result_agrees_with_spec', ok, key=t['meta']['instance'],
+                   what='%s: clauses %s fail' % (t['meta']['instance'], v['fails']), own=False)
+    rep.notes.append('archived Evaluations result files validated by Trace_Pipe.tla: %d (%s)' % (len(traces), 'brute force' if want_bf else 'LP'))
